@@ -8,6 +8,9 @@ from manifest_text import TEXT, NOT_APPLICABLE
 
 props = [json.loads(l)["id"] for l in open(os.path.join(ROOT, "properties.jsonl"))]
 checks = []
+SCALE = (" The instance MC_Scale repeats the relevant part at sizes 4..257 (thorough: 24 sizes) and nesting depths up to 65: maps with a "
+         "repeated label around positions 8/9 and 16/17, n extras / signers / recipients / key operations / keys / claims / builder "
+         "calls, values nested n deep (DESIGN.md 15.5).")
 for pid in props:
     if pid not in JOBS or pid not in TEXT:
         continue
@@ -19,7 +22,9 @@ for pid in props:
         "evidence_file": "/verif/evidence/%s.json" % pid,
         "replay_cmd_template": "bin/check replay %s {path}" % pid,
         "engine": "tlc+harness",
-        "level_claimed": {"category": LEVEL.get(pid, "model_checking"), "text": t["level"], "design_ref": "DESIGN.md section 9, " + pid},
+        "level_claimed": {"category": LEVEL.get(pid, "model_checking"),
+                          "text": t["level"] + (SCALE if pid in ("C01", "C06", "C07", "C08", "C09", "C10", "C11", "C12", "C18", "C19", "C20") else ""),
+                          "design_ref": "DESIGN.md section 9 and 15.5, " + pid},
         "level_note": t["note"],
         "technique": t["technique"],
     })
